@@ -55,7 +55,7 @@ func vMapOnly() *Map[int, int] { ks, xs := maps.VPairs(true); return VGMapOf(ks,
 // VHEnum: Each/Any/All/Find/Select/Map with arbitrary predicate and mapping functions (C14).
 func VHEnum() {
 	m := vMapOnly()
-	containers.VEnumStep(containers.VEnum{Recv: m,
+	containers.VEnumStep(containers.VEnum{Recv: m, Inv: func(c any) { VInv(c.(*Map[int, int])) },
 		Seq: func(c any) ([]int, []int) {
 			r := c.(*Map[int, int])
 			ks := r.Keys()
@@ -120,4 +120,10 @@ func VHJSONLoad() {
 	ks, xs := maps.VPairs(true)
 	c := VGMapOf(ks, xs)
 	containers.VJSONLoad(vJSON(c))
+}
+
+// VHHistory: D operations in a row from the constructor (see VMapHistory).
+func VHHistory() {
+	m := NewWith[int, int](cmp.Compare[int], cmp.Compare[int])
+	maps.VMapHistory(m, maps.VKind{Name: "TreeBidiMap", Bidi: true, Sorted: true, GetKey: m.GetKey, Inv: func() { VInv(m) }})
 }
